@@ -72,6 +72,21 @@ int main() {
                   e.eval(Eigen::Vector3f(lo, c.b, 0), Eigen::Vector3f(hi, c.b, 0)); });
               observe("interval-push", opn, c.name, init, [&] {
                   e.intervalAndPush(Eigen::Vector3f(lo, c.b, 0), Eigen::Vector3f(hi, c.b, 0)); }); }
+            // operand ranges with exactly one / both bounds infinite (and a second operand range that is not a point)
+            if (std::isfinite(c.a) && std::isfinite(c.b)) {
+                auto tv = mk(); IntervalEvaluator e(tv.first);
+                const float ylo = c.b - 0.5f, yhi = c.b + 0.5f;
+                observe("interval-loinf", opn, c.name, init, [&] {
+                    e.eval(Eigen::Vector3f(-inf, c.b, 0), Eigen::Vector3f(c.a, c.b, 0)); });
+                observe("interval-hiinf", opn, c.name, init, [&] {
+                    e.eval(Eigen::Vector3f(c.a, c.b, 0), Eigen::Vector3f(inf, c.b, 0)); });
+                observe("interval-allinf", opn, c.name, init, [&] {
+                    e.eval(Eigen::Vector3f(-inf, ylo, 0), Eigen::Vector3f(inf, yhi, 0)); });
+                observe("interval-yloinf", opn, c.name, init, [&] {
+                    e.eval(Eigen::Vector3f(c.a - 0.25f, -inf, 0), Eigen::Vector3f(c.a + 0.25f, c.b, 0)); });
+                observe("interval-yhiinf", opn, c.name, init, [&] {
+                    e.intervalAndPush(Eigen::Vector3f(c.a - 0.25f, c.b, 0), Eigen::Vector3f(c.a + 0.25f, inf, 0)); });
+            }
             { auto tv = mk(); DerivArrayEvaluator e(tv.first);
               observe("deriv", opn, c.name, init, [&] { e.deriv(p); });
               observe("derivs", opn, c.name, init, [&] { for (int k = 0; k < 5; ++k) e.set(p, k); e.derivs(5); }); }
